@@ -193,3 +193,162 @@ CHECKS['C18'] = {
 }
 
 NOT_APPLICABLE = {}
+
+
+# ---- texts revised at the end of the fifth build phase (DESIGN.md §10.8 / §10.9): what is decided now and by which method -------------
+EVAL = ('bounded evaluation: the functions\' IR is interpreted (cv/cint.py, exact C integer semantics; nothing is compiled or run) on small '
+        'instances laid out by the type\'s own accessors and compared with the stated meaning; verdicts hold for the evaluated family only')
+
+
+def _set(pid, text, technique, note=None):
+    CHECKS[pid]['text'] = text
+    CHECKS[pid]['technique'] = technique
+    if note:
+        CHECKS[pid]['note'] = note
+
+
+_set('C01',
+     'Necessary conditions of safe collection. Must-pass / dominance: mark phase order (roots, spilled registers, stack scan in both directions, '
+     'then sweep), stack bottom, marks cleared. Evaluated: marking callbacks classified (tracing / lookup-only / unguarded) for registered and '
+     'unregistered pointers, every container Mark instance hands every element (key and value) to the callback once — also in the middle of '
+     'List operations wherever outside code can run —, the registry lookup the marker uses (gcmodel), probe distance, root flag travelling '
+     'with its entry. Who-may rule: a raw (unregistered) part that can hold references needs a Mark instance on its owner. Native-stack '
+     'recursion of the marker is a recorded known finding. Not decided: what the compiler keeps in scanned words; object graphs beyond the '
+     'evaluated instances.',
+     'must-pass / dominance cuts over the CFG; ' + EVAL + '; call-graph cycle detection; who-may-allocate-raw rule')
+_set('C02',
+     'Table evaluated as a finite map (cv/tablemodel.py): on a 5-slot table, 30 patterns of colliding and wrapping home slots plus the empty and '
+     'the slot-less table, the library\'s own set / get / mem / rem / rehash are interpreted against a dict — bindings read back through the '
+     'accessors, count, destruct events, every bound key found and unbound refused after every step; record layout (hash word, key, value, '
+     'scratch records) located by the accessors; grow-before-full and resize evaluated; assign clears, retypes and re-inserts. Remaining '
+     'fragment rules: probe agreement of the sibling lookups, modulo guard. Not decided: tables larger than the evaluated ones.',
+     EVAL + '; sibling agreement over probe fragments; guard dominance')
+_set('C03',
+     'Tree as an ordered map that stays balanced. Shape analysis (cv/rbshape.py): the loop invariants of Tree_Set_Fix and Tree_Rem_Fix are '
+     'inductive and every return leaves a valid red-black tree (links paired, no red-red, equal black heights) for materialised nodes plus '
+     'summary subtrees of symbolic black height; Tree_Set / Tree_Rem establish and use those contracts. Evaluated on every tree shape of up to 4 '
+     'nodes: cursor order (in-order and reverse), get / mem hits and misses, node layout and node recovery from a key cursor, tag-bit accessors, '
+     'assign rebuilds, count raised only after the refusable calls. The key order itself is the key type\'s cmp: the scalar cmp discipline is '
+     'checked here too. Not decided: trees beyond the abstraction\'s bound for the concrete evaluations; user-defined cmp.',
+     'shape analysis (abstract interpretation with summary nodes, focus, inductive loop-invariant check); ' + EVAL + '; must-pass pairing')
+_set('C04',
+     'Array and List operations evaluated (cv/seqmodel.py): push, pop, push_at, pop_at, rem, mem, get, set, resize, concat (and Array assign) on '
+     'sizes 0..3, with and without spare capacity, every index from before the start to past the end, present / absent / duplicated arguments; the '
+     'container read back through its own accessors equals the abstract sequence, elements that leave are destructed once and their storage '
+     'released once, every address touched lies inside the reservation, a new slot is cleared and stamped before it is assigned. Tuple: '
+     'terminator kept, realloc sizes cover items plus sentinel. Index arithmetic evaluated over a wide key range; sort only exchanges. Not '
+     'decided: sizes beyond the evaluated ones.',
+     EVAL + '; partial evaluation of index arithmetic; polynomial extent comparison')
+_set('C05',
+     'Ownership pairing. Evaluated: teardown (Clear / Del) of Array, List, Table, Tree destructs every element once before its storage is freed '
+     'and frees the storage once; every Array / List operation keeps exactly the elements of the abstract sequence (none dropped, duplicated or '
+     'byte-copied from another container); Tree rotations and fix-ups keep every node (shape analysis shared with C03); the predecessor copy in '
+     'Tree_Rem moves whole payloads. Per-path counting: removal routines destruct each owned part once before overwrite / free and adjust the '
+     'count once; assignment clears first; Box replaces its pointee through del. Not decided: the live-element ledger over arbitrary histories.',
+     EVAL + '; per-path event counting and ordering; shape analysis')
+_set('C06',
+     'Every deletion entry point (del, del_root, del_raw) reaches dealloc(destruct(p)) exactly once: interprocedural must-pass analysis through '
+     'the constant-specialised switch of del_by and the validated dispatch into the collector; the registry removal itself is evaluated on small '
+     'registries (cv/gcmodel.py) for a registered pointer, an unregistered one, a registry without slots, an unregistered pointer on the sweep\'s '
+     'pending list; del routes evaluated for a running and a stopped collector; sweep appends each reclaimed entry once and finalises every '
+     'pending entry; creation / teardown pairing in main, worker threads and the collector destructor. Four ways a deletion returns without '
+     'finalising are genuine defects recorded as known findings (keyed by scenario).',
+     'interprocedural path enumeration with equality tracking and constant specialisation; ' + EVAL + '; must-pass cuts')
+_set('C07',
+     'Typestate analysis over code-derived summaries: macro skeleton of try / catch / throw (witness unit compiled against the current header), '
+     'per-path summaries of the five exception_* operations over the abstract record (depth, active, object, buffers, further fields as carried '
+     'state, locals loaded from the depth followed), and exhaustive comparison of the summary-driven machine with block-structured semantics on '
+     'all program trees up to the bound — including throws whose message formatting itself raises FormatError. A catch filter matches by eq: eq = '
+     '(cmp == 0) and Type_Cmp evaluated on pairs of type names. Decides the protocol, not the C library\'s setjmp / longjmp.',
+     'typestate / effect summaries per CFG path + bounded exhaustive abstract protocol check; ' + EVAL)
+_set('C08',
+     'Dispatch returns what the type declares. Evaluated: Type_Instance with an empty, a full and a partly filled method cache gives the scan\'s '
+     'answer for every class (static locals read as any value, so a remember-the-last-lookup shortcut is refuted); Type_Method_At_Offset, Type_Of, '
+     'Type_New lay records out as the accessors read them (per configuration in the thorough tier). Rules: the cache is read by the dispatcher '
+     'alone; lookups write nothing but idempotent memoisation; ClassError / ValueError guards dominate; no member of an unchecked instance table is '
+     'called. Not decided: memory-model behaviour of the benign races.',
+     EVAL + '; who-may-write / who-may-read effect rules; guard dominance')
+_set('C09',
+     'Every Cmp.cmp slot function follows the three-way discipline (literals, C comparisons of (self, obj) in order, or sign expressions that '
+     'evaluate to sign(a-b) on operands far apart, no narrowing); the six predicates have the right truth sets over the sign of cmp; the five '
+     'container comparisons evaluated on small instances against the lexicographic order; the byte-wise default evaluated on real bytes (memcmp '
+     'order, any magnitude); Type_Cmp evaluated on pairs of names. Not decided: value-level laws of strcmp / memcmp, NaN.',
+     'sign-domain evaluation of return expressions, narrowing detection; ' + EVAL)
+_set('C10',
+     'No hash derives anything from an address; hash_data reads only inside the value and hashes equal bytes equally at aligned and odd addresses '
+     '(evaluated); container hashes combine every element (key and value) once (evaluated); default copy / assign / swap are guarded and cover all '
+     'size bytes; memswap exchanges every byte once; assign onto a non-empty Array / Table / Tree yields the source (evaluated, element sizes that '
+     'change included); a Tree removal moves whole payloads; eq is value equality (scalar cmp discipline, container cmp). Not decided: per-value '
+     'agreement of hash with eq beyond these conditions.',
+     'effect rule on pointer-to-integer conversions with positive example; ' + EVAL)
+_set('C11',
+     'The four cursor functions of Array, List, Tuple, Table, Tree evaluated on every small instance: forward walk = the elements in order then '
+     'Terminal, backward = the reverse; Range arithmetic and Slice clamping / ends evaluated on parameter grids with exact C conversions; Zip '
+     'evaluated over 0..3 inputs of lengths 0..3; get on a Slice keeps the position of a walk in progress; views drive the underlying iterable only '
+     'through direction-matching cursor functions; foreach expansion; cursor loops end at Terminal. Two known findings: Tuple cursors are found by '
+     'identity. Not decided: lengths and parameters beyond the grids; Filter / Map with arbitrary callables beyond the structural rules.',
+     EVAL + '; partial evaluation with exact C integer conversions; who-may-call rules')
+_set('C12',
+     'Checked build: no mutation of self-reachable state before any contract-error raise point in the container / String operations and their '
+     'helpers (CFG reachability with pointer-origin analysis); the documented exception kind per operation; refused List / Array operations '
+     'evaluated (documented exception, container unchanged, nothing built); missing keys refused at every size including a slot-less Table; the '
+     'dispatcher\'s NULL / magic / class / member tests evaluated; allocation-class refusals precede any change. Not decided: absence of memory '
+     'errors in general; user-defined types.',
+     'CFG reachability (mutation-before-raise), pointer-origin / effect summaries; ' + EVAL + '; guard dominance')
+_set('C13',
+     'Structural side of thread isolation: the only run-time-written shared storage is a frozen reasoned list; a thread binds its key before '
+     'creating its own collector and exception record, whose constructors store themselves in the calling thread\'s table on every path; '
+     'Thread_Current evaluated (key created or not × wrapper bound or not × main wrapper existing or not); join reaches pthread_join on every path '
+     'with a handle; lock / unlock / trylock / with map onto the pthread calls on the object\'s own mutex, which the constructor alone initialises; '
+     'trylock result evaluated. Does not decide schedules or memory visibility.',
+     'who-may-write / who-may-call rules over shared storage and primitives; must-pass cuts; ' + EVAL)
+_set('C14',
+     'print_to_with evaluated on a list of formats (every conversion letter, flags, widths, %%, too few arguments) with a sink that records '
+     'position, specification and argument; show_to evaluated; every Show.show threads the position and returns the position after its last write '
+     '(containers on small instances: each element shown once, in order); formats are literals, never data; String sink bounds; File sink = '
+     'vfprintf; a FormatError raised while formatting the message of a throw is what the handlers see. Not decided: character-for-character '
+     'equality with printf (the C library\'s own behaviour).',
+     EVAL + '; data-flow rule on format arguments; symbolic bound comparison')
+_set('C15',
+     'String show / look round trip evaluated at character level on 180 strings (every character below 128 in several neighbourhoods): look reads '
+     'back what show wrote and consumes exactly those characters; scan_from_with evaluated (position accounting, %% consumes one character, the '
+     'temporary has the width the specification stores, floating reads use double exactly with l); Int / Float written and read with the same '
+     'specification; text from an object never reaches a formatting routine as the format. Not decided: numeric round trip within the printed '
+     'precision.',
+     EVAL + '; data-flow rule on format arguments; call-site agreement')
+_set('C17',
+     'The registry evaluated as a finite set (cv/gcmodel.py): on 5-slot registries with colliding and wrapping home slots the library\'s own '
+     'insertion, lookup, removal and marking keep exactly the registered pointers, each once with its root flag and mark and home+1 as stored '
+     'hash, every one findable from its home slot; removal decrements and finalises once; GC_Set / resize helpers / rehash evaluated (counts, '
+     'growth before insertion, every occupied slot re-inserted with its own flag); no 64-bit slot number is narrowed; sweep compaction re-examines '
+     'the slot. Not decided: registries larger than the evaluated ones; removals interleaved with a sweep beyond the pending-list protocol.',
+     EVAL + '; narrowing-conversion rule with positive witness; must-pass cuts')
+_set('C18',
+     'Configuration independence, structurally: every CELLO_*_CHECK-only region is a pure test; allocation-class tests refuse only stack / static '
+     'objects (dealloc also container elements), evaluated per class; cache-conditional code lives only in the dispatcher and agrees with the scan; '
+     'collector-only regions only register / create / tear down; with the collector nothing reachable through containers or raw parts is reclaimed '
+     'and nothing is finalised twice; layout rules and compile-time witnesses hold under each configuration\'s header (quick: 2 parsed '
+     'configurations + 8 compile witnesses; thorough: all 8 parsed). Not decided: optimisation levels beyond the register spill.',
+     'preprocessor-region classification over the parsed program; multi-configuration re-evaluation; compile-fail witnesses; ' + EVAL)
+_set('C19',
+     'Where objects come into being and where memory is released: every header_init site stamps the true (type, allocation class) and nothing else '
+     'writes a header (positive witness); header / object pointer arithmetic evaluated on integer memory under the configuration\'s header; '
+     'embedded-object layouts of Table and Tree; allocation-class refusals dominate every free / realloc of String and Tuple buffers and the free '
+     'in dealloc; a registered object leaves through the registry on every path, collector running or stopped; Box releases through del. Thorough '
+     'tier repeats the layout rules under the other header configurations.',
+     'call-site table over resolved header_init calls; who-may-write rule with positive witness; ' + EVAL + '; guard dominance')
+_set('C20',
+     'Closed-handle typestate: every stdio call on the handle in the File / Process slot functions is dominated by the closed test that raises '
+     'IOError; close-once evaluated for an open / closed object, a close that succeeds / reports an error, an open that fails, a library call on the '
+     'way that fails, freopen: the stream is closed exactly once and the handle is NULL on every exit; destructor and with pair with close; each '
+     'stream operation delegates to the matching stdio call on the object\'s own handle with error translation. Does not decide data round trip '
+     '(stdio behaviour).',
+     'guard-dominance cuts on the CFG; ' + EVAL + '; delegation tables over type-class slots; macro witness')
+_set('C16', CHECKS['C16']['text'].replace('Does not decide contents after arbitrary histories.',
+     'String_Format_To evaluated at content level (measure with vsnprintf(NULL,0) on a copy of the list, request pos+len+1, write at pos). Does not decide contents after arbitrary histories.'),
+     CHECKS['C16']['technique'] + '; ' + EVAL)
+NOTES = ('Static analysis only. Every check re-parses /repo\'s current working tree (compile flags from `make -n -B`), decides a set of obligations '
+         'that are necessary conditions of the property — by CFG queries (must-pass, dominance, reachability), by who-may rules over the resolved '
+         'program, and by bounded evaluation of the functions\' IR on small instances (no code of the library is compiled or run) — and reports a '
+         'concrete construct (file:line, function, evaluated case) on refutation. Exit 2 = analysis broken or undecided (never a pass). See DESIGN.md '
+         '§5 and §10 for the decided / not-decided split per property.')
